@@ -1,4 +1,5 @@
 //@ inject crate=core src=quic/s2n-quic-core/src/interval_set/mod.rs
+// OUTCOME: helper for kani_injected_c08_ack_ranges.rs (see there); not registered.
 // Builder / observer helper for harnesses that live in other modules (contracts/kani/core/c08_ack_ranges.rs,
 // contracts/kani/transport/c08_ack_manager.rs): `IntervalSet::intervals` is private to this module
 // (AUTHORING "A field private to another module").  No harness in this file; nothing here is called by production code.
